@@ -26,6 +26,7 @@ def _fake_classes():
         a: int = 0
         b: int = 0
         c: int = 0
+        d: int | None = 7           # an optional parameter whose default is not None
         log: str = ""
         label: str = "S"
 
@@ -51,7 +52,7 @@ def _fake_classes():
                 if isinstance(cost, list):
                     cost = cost[seen % len(cost)]      # one value per trial: the k-th call with these parameters gets the k-th value
                 f.seek(0, 2)
-                f.write(json.dumps({"algo": cfg.label, "cls": type(self).__name__, "params": [cfg.a, cfg.b, cfg.c],
+                f.write(json.dumps({"algo": cfg.label, "cls": type(self).__name__, "params": [cfg.a, cfg.b, cfg.c], "d": cfg.d,
                                     "task": type(task).__name__, "mode": mode, "workers": workers}) + "\n")
                 f.flush()
                 fcntl.flock(f, fcntl.LOCK_UN)
@@ -175,6 +176,20 @@ def c19():
             law(f"execute with differing variances {mm} (optimum {best}): best mean wins whatever the spread",
                 abs(ht.best_score - best) <= tol and ht.best_parameters == {"a": best_a},
                 f"best_score {ht.best_score}, best_parameters {ht.best_parameters}, optimum {best}")
+        # a grid value None is a value like any other: the point is evaluated with it (not with the model's default)
+        log = os.path.join(tmp, "log_none.jsonl")
+        open(log, "w").close()
+        task = F["tasks"]["TaskA"](variables=F["V"](), minmax="min", data={"table": {"1,0,0": 3.0, "2,0,0": 1.0}, "log": log})
+        ht = HyperTuner(F["Opt"](), {"a": [1, 2], "d": [None, 3]})
+        ht.execute(task, n_trials=1, n_jobs=2)
+        got = sorted((c["params"][0], -1 if c["d"] is None else c["d"]) for c in (json.loads(l) for l in open(log)))
+        law("execute with a None grid value: every point is evaluated with exactly its parameters (None included)",
+            got == [(1, -1), (1, 3), (2, -1), (2, 3)], f"{got}")
+        open(log, "w").close()
+        ht.resolve()
+        rc = [json.loads(l) for l in open(log)]
+        law("resolve with a None grid value: the best parameters are used as they are",
+            len(rc) == 1 and rc[0]["params"][0] == ht.best_parameters.get("a") and rc[0]["d"] == ht.best_parameters.get("d"), f"{rc} / {ht.best_parameters}")
         # the same tuner executed twice: the second call answers for the second call only
         log = os.path.join(tmp, "log_twice.jsonl")
         open(log, "w").close()
@@ -230,10 +245,10 @@ def c20():
                     continue
                 if sname == "per-algorithm" and n == 1:
                     continue
-                for n_trials in (1, 2):
+                for n_trials, n_w in ((1, 3), (2, 3), (1, 1)):
                     open(log, "w").close()
                     try:
-                        mt = Multitask(algos, tasks, modes=modes, n_workers=3)
+                        mt = Multitask(algos, tasks, modes=modes, n_workers=n_w)
                         mt.execute(n_trials=n_trials, n_jobs=2)
                     except Exception as ex:
                         law(f"n={n} m={m} modes={sname} trials={n_trials}: runs", False, f"{type(ex).__name__}: {ex}")
@@ -241,9 +256,9 @@ def c20():
                     calls = [json.loads(l) for l in open(log)]
                     want = sorted((f"A{i}", task_classes[j].__name__, designated(i, j)) for i in range(n) for j in range(m) for _ in range(n_trials))
                     got = sorted((c["algo"], c["task"], c["mode"]) for c in calls)
-                    law(f"n={n} m={m} modes={sname} trials={n_trials}: every pair, n_trials times, in its designated mode", got == want,
+                    law(f"n={n} m={m} modes={sname} trials={n_trials} workers={n_w}: every pair, n_trials times, in its designated mode", got == want,
                         f"got {got[:4]}... want {want[:4]}...")
-                    law(f"n={n} m={m} modes={sname}: workers passed on", all(c["workers"] == 3 for c in calls))
+                    law(f"n={n} m={m} modes={sname} workers={n_w}: workers passed on", all(c["workers"] == n_w for c in calls))
                     ok = len(mt._df2) == n and all(df.shape == (n_trials, m) for df in mt._df2)
                     law(f"n={n} m={m} modes={sname} trials={n_trials}: one table per algorithm, a column per task, a row per trial", ok,
                         f"{[df.shape for df in mt._df2]}")
